@@ -13,57 +13,140 @@ theorem mem_of_mem_dropLast {α} {x : α} : ∀ {l : List α}, x ∈ l.dropLast 
     · exact Or.inl h
     · exact Or.inr (List.mem_cons.mp (mem_of_mem_dropLast h))
 
-@[simp] theorem splitNl_nil : splitNl [] = [[]] := rfl
-@[simp] theorem splitNl_nl (cs : Bytes) : splitNl ('\n' :: cs) = [] :: splitNl cs := by
-  simp [splitNl]
-theorem splitNl_cons_ne (c : Char) (cs : Bytes) (h : c ≠ '\n') :
-    splitNl (c :: cs) = consHead c (splitNl cs) := by
-  simp [splitNl, h]
+/-! ### prefixes -/
 
-theorem splitNl_ne_nil (b : Bytes) : splitNl b ≠ [] := by
+theorem stripPrefix?_some_iff (p b r : Bytes) : stripPrefix? p b = some r ↔ b = p ++ r := by
+  induction p generalizing b with
+  | nil => simp [stripPrefix?, eq_comm]
+  | cons x p ih =>
+    cases b with
+    | nil => simp [stripPrefix?]
+    | cons y b =>
+      simp only [stripPrefix?]
+      by_cases h : x = y
+      · subst h; simp [ih]
+      · simp [h]; intro e; exact absurd e.symm h
+
+theorem stripPrefix?_append (p r : Bytes) : stripPrefix? p (p ++ r) = some r :=
+  (stripPrefix?_some_iff p _ r).mpr rfl
+
+theorem stripPrefix?_none_iff (p b : Bytes) : stripPrefix? p b = none ↔ ¬ p <+: b := by
+  constructor
+  · intro h ⟨r, hr⟩
+    rw [← hr, stripPrefix?_append] at h
+    exact absurd h (by simp)
+  · intro h
+    cases hs : stripPrefix? p b with
+    | none => rfl
+    | some r => exact absurd ⟨r, ((stripPrefix?_some_iff p b r).mp hs).symm⟩ h
+
+/-! ### split/join at a separator character -/
+
+@[simp] theorem splitCh_nil (sep : Char) : splitCh sep [] = [[]] := rfl
+@[simp] theorem splitCh_sep (sep : Char) (cs : Bytes) : splitCh sep (sep :: cs) = [] :: splitCh sep cs := by
+  simp [splitCh]
+theorem splitCh_cons_ne (sep c : Char) (cs : Bytes) (h : c ≠ sep) :
+    splitCh sep (c :: cs) = consHead c (splitCh sep cs) := by
+  simp [splitCh, h]
+
+theorem splitCh_ne_nil (sep : Char) (b : Bytes) : splitCh sep b ≠ [] := by
   induction b with
   | nil => simp
   | cons c cs ih =>
-    by_cases h : c = '\n'
+    by_cases h : c = sep
     · subst h; simp
-    · rw [splitNl_cons_ne c cs h]
-      cases hs : splitNl cs <;> simp [consHead]
+    · rw [splitCh_cons_ne sep c cs h]
+      cases hs : splitCh sep cs <;> simp [consHead]
 
-theorem joinNl_consHead (c : Char) (ls : List Bytes) (h : ls ≠ []) :
-    joinNl (consHead c ls) = c :: joinNl ls := by
+theorem joinCh_consHead (sep c : Char) (ls : List Bytes) (h : ls ≠ []) :
+    joinCh sep (consHead c ls) = c :: joinCh sep ls := by
   match ls, h with
-  | [l], _ => simp [consHead, joinNl]
-  | l :: l' :: ls', _ => simp [consHead, joinNl]
+  | [l], _ => simp [consHead, joinCh]
+  | l :: l' :: ls', _ => simp [consHead, joinCh]
 
-/-- `bytes.Join(bytes.Split(b, "\n"), "\n") = b`: splitting and joining loses nothing. -/
-theorem joinNl_splitNl (b : Bytes) : joinNl (splitNl b) = b := by
+/-- joining what was split gives the text back -/
+theorem joinCh_splitCh (sep : Char) (b : Bytes) : joinCh sep (splitCh sep b) = b := by
   induction b with
-  | nil => simp [joinNl]
+  | nil => simp [joinCh]
   | cons c cs ih =>
-    by_cases h : c = '\n'
+    by_cases h : c = sep
     · subst h
-      rw [splitNl_nl]
-      cases hs : splitNl cs with
-      | nil => exact absurd hs (splitNl_ne_nil cs)
-      | cons l ls => rw [hs] at ih; simp [joinNl, ih]
-    · rw [splitNl_cons_ne c cs h, joinNl_consHead c _ (splitNl_ne_nil cs), ih]
+      rw [splitCh_sep]
+      cases hs : splitCh c cs with
+      | nil => exact absurd hs (splitCh_ne_nil c cs)
+      | cons l ls => rw [hs] at ih; simp [joinCh, ih]
+    · rw [splitCh_cons_ne sep c cs h, joinCh_consHead sep c _ (splitCh_ne_nil sep cs), ih]
 
-theorem splitNl_noNl (l : Bytes) (h : '\n' ∉ l) : splitNl l = [l] := by
+theorem splitCh_noSep (sep : Char) (l : Bytes) (h : sep ∉ l) : splitCh sep l = [l] := by
   induction l with
   | nil => simp
   | cons c cs ih =>
-    have hc : c ≠ '\n' := by intro e; apply h; simp [e]
-    have hcs : '\n' ∉ cs := by intro e; apply h; simp [e]
-    rw [splitNl_cons_ne c cs hc, ih hcs]; rfl
+    have hc : c ≠ sep := by intro e; apply h; simp [e]
+    have hcs : sep ∉ cs := by intro e; apply h; simp [e]
+    rw [splitCh_cons_ne sep c cs hc, ih hcs]; rfl
 
+theorem splitCh_append_sep (sep : Char) (l rest : Bytes) (h : sep ∉ l) :
+    splitCh sep (l ++ sep :: rest) = l :: splitCh sep rest := by
+  induction l with
+  | nil => simp
+  | cons c cs ih =>
+    have hc : c ≠ sep := by intro e; apply h; simp [e]
+    have hcs : sep ∉ cs := by intro e; apply h; simp [e]
+    rw [List.cons_append, splitCh_cons_ne sep c _ hc, ih hcs]; rfl
+
+/-- splitting what was joined gives the fields back (no field contains the separator) -/
+theorem splitCh_joinCh (sep : Char) (ls : List Bytes) (hne : ls ≠ []) (h : ∀ l ∈ ls, sep ∉ l) :
+    splitCh sep (joinCh sep ls) = ls := by
+  induction ls with
+  | nil => exact absurd rfl hne
+  | cons l ls ih =>
+    cases ls with
+    | nil => simp [joinCh, splitCh_noSep sep l (h l (by simp))]
+    | cons l' ls' =>
+      simp only [joinCh]
+      rw [splitCh_append_sep sep l _ (h l (by simp))]
+      rw [ih (by simp) (fun x hx => h x (by simp [hx]))]
+
+theorem splitCh_fields_noSep (sep : Char) (b : Bytes) : ∀ l ∈ splitCh sep b, sep ∉ l := by
+  induction b with
+  | nil => simp
+  | cons c cs ih =>
+    by_cases h : c = sep
+    · subst h
+      intro l hl
+      simp only [splitCh_sep, List.mem_cons] at hl
+      rcases hl with rfl | hl
+      · simp
+      · exact ih l hl
+    · rw [splitCh_cons_ne sep c cs h]
+      cases hs : splitCh sep cs with
+      | nil => exact absurd hs (splitCh_ne_nil sep cs)
+      | cons l0 ls0 =>
+        rw [hs] at ih
+        intro l hl
+        simp only [consHead, List.mem_cons] at hl
+        rcases hl with hl | hl
+        · rw [hl]
+          intro hm
+          simp only [List.mem_cons] at hm
+          rcases hm with e | hm
+          · exact h e.symm
+          · exact ih l0 (by simp) hm
+        · exact ih l (by simp [hl])
+
+/-! ### lines -/
+
+@[simp] theorem splitNl_nil : splitNl [] = [[]] := rfl
+@[simp] theorem splitNl_nl (cs : Bytes) : splitNl ('\n' :: cs) = [] :: splitNl cs := splitCh_sep '\n' cs
+theorem splitNl_ne_nil (b : Bytes) : splitNl b ≠ [] := splitCh_ne_nil '\n' b
+/-- `bytes.Join(bytes.Split(b, "\n"), "\n") = b`: splitting and joining loses nothing. -/
+theorem joinNl_splitNl (b : Bytes) : joinNl (splitNl b) = b := joinCh_splitCh '\n' b
+theorem splitNl_noNl (l : Bytes) (h : '\n' ∉ l) : splitNl l = [l] := splitCh_noSep '\n' l h
 theorem splitNl_append_nl (l rest : Bytes) (h : '\n' ∉ l) :
-    splitNl (l ++ '\n' :: rest) = l :: splitNl rest := by
-  induction l with
-  | nil => simp
-  | cons c cs ih =>
-    have hc : c ≠ '\n' := by intro e; apply h; simp [e]
-    have hcs : '\n' ∉ cs := by intro e; apply h; simp [e]
-    rw [List.cons_append, splitNl_cons_ne c _ hc, ih hcs]; rfl
+    splitNl (l ++ '\n' :: rest) = l :: splitNl rest := splitCh_append_sep '\n' l rest h
+theorem splitNl_joinNl (ls : List Bytes) (hne : ls ≠ []) (h : ∀ l ∈ ls, '\n' ∉ l) :
+    splitNl (joinNl ls) = ls := splitCh_joinCh '\n' ls hne h
+theorem splitNl_lines_noNl (b : Bytes) : ∀ l ∈ splitNl b, '\n' ∉ l := splitCh_fields_noSep '\n' b
 
 @[simp] theorem unlines_nil : unlines [] = [] := by simp [unlines]
 
@@ -84,14 +167,15 @@ theorem splitNl_unlines (ls : List Bytes) (h : ∀ l ∈ ls, '\n' ∉ l) :
     simp
 
 theorem joinNl_snoc_nil (ls : List Bytes) : joinNl (ls ++ [[]]) = unlines ls := by
+  unfold joinNl
   induction ls with
-  | nil => simp [joinNl]
+  | nil => simp [joinCh]
   | cons l ls ih =>
     cases ls with
-    | nil => simp [joinNl, unlines]
+    | nil => simp [joinCh, unlines]
     | cons l' ls' =>
       simp only [List.cons_append] at ih ⊢
-      simp only [joinNl]
+      simp only [joinCh]
       rw [ih]
       simp [unlines]
 
@@ -118,33 +202,6 @@ theorem scanLines_unlines (ls : List Bytes)
   have h1 : (ls ++ [([] : Bytes)]).getLast? = some [] := by simp
   simp only [h1, List.dropLast_concat]
   exact map_dropCR_id ls hcr
-
-theorem splitNl_lines_noNl (b : Bytes) : ∀ l ∈ splitNl b, '\n' ∉ l := by
-  induction b with
-  | nil => simp
-  | cons c cs ih =>
-    by_cases h : c = '\n'
-    · subst h
-      intro l hl
-      simp only [splitNl_nl, List.mem_cons] at hl
-      rcases hl with rfl | hl
-      · simp
-      · exact ih l hl
-    · rw [splitNl_cons_ne c cs h]
-      cases hs : splitNl cs with
-      | nil => exact absurd hs (splitNl_ne_nil cs)
-      | cons l0 ls0 =>
-        rw [hs] at ih
-        intro l hl
-        simp only [consHead, List.mem_cons] at hl
-        rcases hl with hl | hl
-        · rw [hl]
-          intro hm
-          simp only [List.mem_cons] at hm
-          rcases hm with e | hm
-          · exact h e.symm
-          · exact ih l0 (by simp) hm
-        · exact ih l (by simp [hl])
 
 theorem dropCR_noNl (l : Bytes) (h : '\n' ∉ l) : '\n' ∉ dropCR l := by
   unfold dropCR
